@@ -55,6 +55,7 @@ def net(ctx, nif, namelen, raw=None):
         # the last interface is a port of a bond/bridge: it is still an interface the kernel lists, and counts in the total
         k.links["/sys/class/net/" + names[-1] + "/master"] = "../bond0"
         k.dirs["/sys/class/net/" + names[-1]] = ["master", "statistics"]
+        k.dirs["/sys/class/net/bond0"] = ["statistics"]
     content = "Inter-|   Receive                                                |  Transmit\n face |bytes    packets errs drop fifo frame compressed multicast|bytes    packets errs drop fifo colls carrier compressed\n"
     for i in range(nif if raw is None else 0):
         nm = seq.fresh(ctx, f"nm{i}", namelen, "str", lo=33, hi=126)     # printable, no whitespace
@@ -90,6 +91,9 @@ def net(ctx, nif, namelen, raw=None):
             return
         w = want(vals[i])
         ctx.prove(tuple(ent._fields) == tuple(w) and ctx.all([ctx.eq(getattr(ent, f), w[f]) for f in w]), "per-nic-fields")
+    ctx.prove(tot is not None, "total-is-sum", detail="no total although interfaces are listed")
+    if tot is None:
+        return
     ctx.prove(ctx.all([ctx.eq(getattr(tot, f), ctx.sum([want(v)[f] for v in vals])) for f in tot._fields]), "total-is-sum")
 
 
